@@ -464,113 +464,11 @@ fn ideal_total(t: &Table, cap: u64) -> Option<u64> {
     Some(total)
 }
 
+/// captured floats of `selK(t, v)` requests; the low 32 bits of 1.0 and 0.0 are 0, a valid function-table index (under the
+/// old bump discipline of finding F17 such a word, read as a function word, re-ran the global initialiser)
+const UPVS: [f64; 6] = [0.7, 0.3, 0.9, 0.1, 1.0, 0.0];
+
 /// `ntargets`: the request names one of `t0 .. t(ntargets-1)` (mimium has no forward references: a body can only name itself and earlier functions)
-/// The same count for the WASM runtime as it stands (finding F17: a pending task runs whatever function was last
-/// written at its closure address), so that generated programs stay small on that runtime too. Generator-side filter only.
-fn wasm_total(t: &Table, cap: u64) -> Option<u64> {
-    use std::cmp::Reverse;
-    use std::collections::{BinaryHeap, HashMap};
-    #[derive(PartialEq, Eq)]
-    struct T(u64, u64); // when, closure address
-    impl PartialOrd for T {
-        fn partial_cmp(&self, o: &Self) -> Option<std::cmp::Ordering> {
-            Some(self.cmp(o))
-        }
-    }
-    impl Ord for T {
-        fn cmp(&self, o: &Self) -> std::cmp::Ordering {
-            self.0.cmp(&o.0)
-        }
-    }
-    /// a memory cell: function word of `tK`, function word of the closure of `selK`, a captured float
-    #[derive(Clone, Copy)]
-    enum W {
-        Fn(usize),
-        Lam(usize),
-        Up(f64),
-    }
-    // writes the record of request `r` at `a`, returns its size in cells
-    let write = |mem: &mut HashMap<u64, W>, a: u64, r: &Req| -> u64 {
-        match r.upv {
-            Some(v) => {
-                mem.insert(a, W::Lam(r.target));
-                mem.insert(a + 1, W::Up(v));
-                2
-            }
-            None => {
-                mem.insert(a, W::Fn(r.target));
-                1
-            }
-        }
-    };
-    let mut heap: BinaryHeap<Reverse<T>> = BinaryHeap::new();
-    let mut mem: HashMap<u64, W> = HashMap::new();
-    let mut total = 0u64;
-    let mut addr = 0u64;
-    for r in &t.global {
-        let w = r.c as u64;
-        if w == 0 {
-            return Some(total);
-        }
-        let n = write(&mut mem, addr, r);
-        heap.push(Reverse(T(w, addr)));
-        addr += n;
-    }
-    let base = addr;
-    for now in 0..t.ticks {
-        let mut due = vec![];
-        while let Some(Reverse(x)) = heap.peek() {
-            if x.0 <= now {
-                due.push(heap.pop().unwrap().0);
-            } else {
-                break;
-            }
-        }
-        let run = |body: &Vec<Req>, heap: &mut BinaryHeap<Reverse<T>>, mem: &mut HashMap<u64, W>| -> bool {
-            let mut j = 0;
-            for r in body {
-                if r.guard.map_or(true, |g| now < g) {
-                    let w = (if r.abs { r.c } else { now as f64 + r.c }) as u64;
-                    if w <= now {
-                        return false; // rejected by the host call: the run ends here
-                    }
-                    let n = write(mem, base + j, r);
-                    heap.push(Reverse(T(w, base + j)));
-                    j += n;
-                }
-            }
-            true
-        };
-        for x in due {
-            let f = match mem.get(&x.1).copied().unwrap_or(W::Fn(0)) {
-                W::Fn(k) => k,
-                W::Lam(k) => match mem.get(&(x.1 + 1)).copied().unwrap_or(W::Fn(0)) {
-                    W::Up(v) if v > 0.5 => k,
-                    _ => k.saturating_sub(1), // a function word read as a float is a denormal
-                },
-                W::Up(_) => continue, // a captured float read as a function index: `call_indirect` traps, task dropped
-            };
-            total += 1;
-            if total > cap {
-                return None;
-            }
-            if !run(&t.tasks[f], &mut heap, &mut mem) {
-                return Some(total);
-            }
-        }
-        if !run(&t.dsp, &mut heap, &mut mem) {
-            return Some(total);
-        }
-        if heap.len() as u64 > cap {
-            return None;
-        }
-    }
-    Some(total)
-}
-
-/// captured floats of `selK(t, v)` requests; their low 32 bits are far outside any function table
-const UPVS: [f64; 4] = [0.7, 0.3, 0.9, 0.1];
-
 /// `upv_targets > 0`: with probability 1/3 the request is `selK(time, v)` (closure with one upvalue), `K < upv_targets`
 fn gen_req(rng: &mut Rng, ntargets: usize, ticks: u64, abs: bool, boundary: bool, must_guard: bool, upv_targets: usize) -> Req {
     let target = rng.below(ntargets as u64) as usize;
@@ -592,18 +490,19 @@ fn gen_req(rng: &mut Rng, ntargets: usize, ticks: u64, abs: bool, boundary: bool
 
 fn gen_table(rng: &mut Rng, ticks: u64) -> Table {
     if rng.chance(1, 12) {
-        // fixture shape (`scheduler_counter.mmm`) with a random period and start; a single instance, because several
-        // instances of one closure-making function share their captured cells on the WASM backend (observation F18)
-        let p = (1 + rng.below(6)) as f64 + *rng.pick(&FRACS);
-        let t0 = (1 + rng.below(8)) as f64 + *rng.pick(&FRACS);
-        return Table {
-            ticks,
-            closure_style: true,
-            ntasks: 1,
-            global: vec![Req { abs: true, c: t0, target: 0, guard: None, lambda: false, upv: None }],
-            tasks: vec![vec![Req { abs: false, c: p, target: 0, guard: None, lambda: false, upv: None }]],
-            dsp: vec![],
-        };
+        // fixture shape (`scheduler_counter.mmm`) with random periods and starts: 1-3 instances of ONE closure-making
+        // function (each instance owns its captured `x` and its `letrec` self reference; they shared them on WASM
+        // before the repair of observation F18)
+        let n = 1 + rng.below(3) as usize;
+        let mut global = vec![];
+        let mut tasks = vec![];
+        for i in 0..n {
+            let p = (1 + rng.below(6)) as f64 + *rng.pick(&FRACS);
+            let t0 = (1 + rng.below(8)) as f64 + *rng.pick(&FRACS);
+            global.push(Req { abs: true, c: t0, target: i, guard: None, lambda: false, upv: None });
+            tasks.push(vec![Req { abs: false, c: p, target: i, guard: None, lambda: false, upv: None }]);
+        }
+        return Table { ticks, closure_style: true, ntasks: n, global, tasks, dsp: vec![] };
     }
     loop {
         let ntasks = 1 + rng.below(4) as usize;
@@ -655,7 +554,7 @@ fn gen_table(rng: &mut Rng, ticks: u64) -> Table {
             dsp.push(gen_req(rng, ntasks, ticks, abs, b, false, if upv { ntasks } else { 0 }));
         }
         let t = Table { ticks, closure_style: false, ntasks, global, tasks, dsp };
-        if ideal_total(&t, WEIGHT - 1).is_some() && wasm_total(&t, WEIGHT - 1).is_some() {
+        if ideal_total(&t, WEIGHT - 1).is_some() {
             return t;
         }
     }
